@@ -17,13 +17,17 @@ TRUSTED = ['Eigen::Affine3d::rotation() (polar factor via JacobiSVD) is a model 
            'rotation matrix unchanged; the driver uses the identity function and the tie compares within 1e-10 relative',
            'Eigen::JacobiSVD on the 2x2 covariance is a model parameter with the contract IsEig2 (orthonormal U, descending '
            'non-negative values, C = U diag(s) U^T); the driver uses a closed-form symmetric 2x2 eigen-decomposition; '
-           'orientation is compared modulo pi with a tolerance proportional to 1/(relative eigen-gap)']
+           'orientation is compared modulo pi with a tolerance proportional to 1/(relative eigen-gap)',
+           'tools/cxx2lean.py (clang-14 AST -> Lean) translates the covariance selections, pose / twist reductions, Ellipse.cpp and both '
+           'uncertaintyEllipse overloads on every run; the local JacobiSVD is an uninterpreted oracle record (matrixU, singularValues as '
+           'functions of the constructor arguments); a fixed-size Eigen local initialised from a dynamic-size value is read at the '
+           'local\'s indices (sizes not compared)']
 ASSUMPTIONS = ['theorems are over exact reals (no rounding/overflow); libm atan2/asin/sin/cos/sqrt are the mathematical functions',
                'the attitude part of the group action (composition compared as a rotation) is checked by the probe on the '
                'implementation; the Lean theorems cover the position part and the orientation definition '
                '(rotation3DToEulerAngles of R*R(pose)); the Euler round trip itself belongs to C10']
 EXPLANATION = ('Lean theorems on the model (selection, round trip, symmetry/PSD, position action laws, ellipse reconstruction for '
-               'every oracle meeting the eigen contract) + differential correspondence with the C++ + property probe')
+               'every oracle meeting the eigen contract; restated on the functions translated from the current source) + differential correspondence with the C++ + property probe')
 
 TWO_PI = 2 * math.pi
 SEL = (0, 1, 5)
